@@ -20,7 +20,7 @@ def one(p):
     return p, res
 
 out = {}
-with ThreadPoolExecutor(max_workers=6) as ex:
+with ThreadPoolExecutor(max_workers=int(os.environ.get("SWEEP_JOBS", "6"))) as ex:
     for p, res in ex.map(one, patches):
         name = os.path.relpath(p, VERIF)
         if res is None:
